@@ -232,6 +232,21 @@ def run_case(suite: Suite, case):
         signal.setitimer(signal.ITIMER_REAL, 0)
 
 
+def same_output(got: str, exp) -> bool:
+    """exact text equality, or numeric closeness when `exp` is {"approx": [...], "rtol":, "atol":}"""
+    if isinstance(exp, str):
+        return got == exp
+    try:
+        vals = [float(x) for x in got.split()]
+    except ValueError:
+        return False
+    want = exp["approx"]
+    if len(vals) != len(want):
+        return False
+    rtol, atol = exp.get("rtol", 1e-9), exp.get("atol", 1e-12)
+    return all(abs(a - b) <= atol + rtol * max(abs(a), abs(b)) for a, b in zip(vals, want))
+
+
 def canon(obj) -> str:
     return json.dumps(obj, sort_keys=True, default=str)
 
@@ -275,9 +290,17 @@ def _main(mod, pid, tier, seed, args, t0):
         T = translate.regenerate()
     # 2. build property theorems (+ driver)
     if not args.no_build:
-        ok, out = lake_build(list(mod.LEAN_MODS) + ["driver"])
+        ok, out = lake_build(list(mod.LEAN_MODS))
         if not ok:
             P = broken_decls(out)
+        okd, outd = lake_build(["driver"])
+        if not okd:
+            # the driver links every model incl. the generated ones; a failure there concerns only the
+            # properties that depend on the generated files (the stale binary keeps serving the others)
+            if getattr(mod, "TRANSLATE", False):
+                P = P + [d for d in broken_decls(outd) if d not in P]
+            else:
+                print("warning: driver did not rebuild (unrelated generated file?); using the previous binary", file=sys.stderr)
         # 3. audit
         axioms, A = audit(pid, mod.LEAN_MODS, mod.THEOREMS) if ok else ({}, [])
     driver_ok = DRIVER.exists()
@@ -337,10 +360,10 @@ def _main(mod, pid, tier, seed, args, t0):
                 sstat["lines"] += len(batch_lines)
                 stats["corr_lines"] += len(batch_lines)
                 for line, got, (case, exp, res) in zip(batch_lines, outs, batch_meta):
-                    if got != exp:
+                    if not same_output(got, exp):
                         sstat["disagreements"] += 1
                         if len(K) < 50:
-                            K.append({"suite": suite.name, "case": case, "line": line[:2000], "model": got[:2000], "impl": exp[:2000]})
+                            K.append({"suite": suite.name, "case": case, "line": line[:2000], "model": got[:2000], "impl": str(exp)[:2000]})
             elif batch_lines and not driver_ok:
                 K.append({"suite": suite.name, "case": None, "line": "<driver not built>", "model": "", "impl": ""})
 
